@@ -30,6 +30,7 @@ import JdSpec
 import JdProofs.EqualsList
 import JdProofs.NoPanic
 import JdProofs.StrictPatch
+import JdProofs.Common
 
 namespace Jd.Merge
 open Jd Jd.Spec
@@ -967,17 +968,6 @@ def dlKvs (o : Opts) (kvs' : List (String × Json)) :
      | none => [([k], .void)]) ++ dlKvs o kvs' r
 end
 
-theorem alookup_rawDoc {k : String} {v : Json} :
-    ∀ {kvs : List (String × Json)}, alookup k kvs = some v → rawDocKvs kvs = true →
-      v.rawDoc = true
-  | [], h, _ => by simp [alookup] at h
-  | (k', v') :: r, h, hd => by
-    simp only [rawDocKvs, Bool.and_eq_true] at hd
-    simp only [alookup] at h
-    split at h
-    · cases h; exact hd.1
-    · exact alookup_rawDoc h hd.2
-
 theorem nodeList_of_objVoidFree {v : Json} (h : objVoidFree v = true) : v.nodeList = [v] := by
   cases v <;> simp_all [Json.nodeList, Json.isVoid, objVoidFree]
 
@@ -1114,32 +1104,6 @@ theorem renderMergeDoc_diffM (o : Opts) (ho : dispatchTag o = .list) (hm : isMer
     simp [rl, hdl]
 
 /-! ### 9. RFC 7386 on wholesale values; reflexivity; objects compared member by member -/
-
-mutual
-theorem rawDoc_listDoc : ∀ a : Json, a.rawDoc = true → a.listDoc = true
-  | .arr t xs, h => by
-    simp only [Json.rawDoc, Bool.and_eq_true, beq_iff_eq] at h
-    simp [Json.listDoc, h.1, rawDocList_listDocList xs h.2]
-  | .obj kvs, h => by
-    simp only [Json.rawDoc] at h
-    simp [Json.listDoc, rawDocKvs_listDocKvs kvs h]
-  | .void, _ => rfl
-  | .null, _ => rfl
-  | .bool _, _ => rfl
-  | .num _, _ => rfl
-  | .str _, _ => rfl
-theorem rawDocList_listDocList : ∀ xs : List Json, rawDocList xs = true → listDocList xs = true
-  | [], _ => rfl
-  | x :: r, h => by
-    simp only [rawDocList, Bool.and_eq_true] at h
-    simp [listDocList, rawDoc_listDoc x h.1, rawDocList_listDocList r h.2]
-theorem rawDocKvs_listDocKvs : ∀ kvs : List (String × Json), rawDocKvs kvs = true →
-    listDocKvs kvs = true
-  | [], _ => rfl
-  | (_, v) :: r, h => by
-    simp only [rawDocKvs, Bool.and_eq_true] at h
-    simp [listDocKvs, rawDoc_listDoc v h.1, rawDocKvs_listDocKvs r h.2]
-end
 
 mutual
 /-- a null-free value used as a patch on a non-object target (or on nothing) is copied -/
